@@ -23,6 +23,7 @@ RULE = (
     "ranges + 3 gulps x all ranges. Output decoded independently and via FilReader/from_tim; raw size must equal hdrlen + "
     "n*C*nbits/8. Non-trivial = more than one block or a proper sub-range"
 )
+SCALE_LANE = "none beyond the batch-size parameters (extract_chans / extract_bands with more outputs than batch_size 1..3); transforms stream through C01's reader, whose scale lane covers the block planning"
 ASSUMPTIONS = [
     "integer-valued labelled input; selections/permutations/fills exact; decimation = floor(mean) at integer depths, float32 mean at 32 bit",
     "zero-DM removal compared within one quantisation level (1e-4 relative at 32 bit), only on cases whose float64 result stays inside the representable range",
